@@ -45,7 +45,7 @@ pub fn run(obligation: &str) -> i32 {
     if obligation.starts_with("C02.type_table") { gen_type_table(&mut rep); return rep.finish("GEN_type_table"); }
     if ["C02.format_member_or_option", "C02.format_sequence_member", "C02.format_choice_option", "C02.boxed_type", "C02.format_default_methods"].iter().any(|p| obligation.starts_with(p)) { gen_members(&mut rep); gen_default_methods(&mut rep); return rep.finish("GEN_members"); }
     if obligation.starts_with("C14.format_enum_members") || obligation.starts_with("C05.format_enum_members") { gen_enum_members(&mut rep); return rep.finish("GEN_enum_members"); }
-    if ["C05.generate_", "C03.generate_", "C05.member_extension", "C05.option_extension", "C02.generate_sequence_or_set_set_annotation", "C02.sequence_or_set_of_template"].iter().any(|p| obligation.starts_with(p)) { gen_blocks(&mut rep); gen_collections(&mut rep); return rep.finish("GEN_blocks"); }
+    if ["C05.generate_", "C03.generate_", "C05.member_extension", "C05.option_extension", "C02.generate_sequence_or_set_set_annotation", "C02.sequence_or_set_of_template", "C03.common_annotations"].iter().any(|p| obligation.starts_with(p)) { gen_blocks(&mut rep); gen_collections(&mut rep); return rep.finish("GEN_blocks"); }
     if ["C03.format_tag", "C06.width_to_tokens", "C04.format_range_annotations", "lemma.GEN_emission"].iter().any(|p| obligation.starts_with(p)) { gen_emission(&mut rep); return rep.finish("GEN_emission"); }
     if obligation.starts_with("C03.") { c03_apply_tagenv(&mut rep); return rep.finish("C03_apply_tagenv"); }
     if ["C02.link_components_of", "C05.link_components_of", "C02.has_components_of", "C05.lemma.", "C02.lemma."].iter().any(|p| obligation.starts_with(p)) { c02_components_of(&mut rep); return rep.finish("C02_components_of"); }
@@ -54,6 +54,7 @@ pub fn run(obligation: &str) -> i32 {
     if ["C04.constraint_link", "C04.set_link", "C04.element_link"].iter().any(|p| obligation.starts_with(p)) { c04_link(&mut rep); return rep.finish("C04_link"); }
     if ["C04.constraint_has_reference", "C04.set_has_reference", "C04.element_has_reference", "C04.type_has_reference", "C04.is_elsewhere_declared", "C04.optionality_default"].iter().any(|p| obligation.starts_with(p)) { c04_references(&mut rep); return rep.finish("C04_references"); }
     if obligation.starts_with("C04.") { c04_bounds(&mut rep); return rep.finish("C04_bounds"); }
+    if obligation.starts_with("C07.bit_string_to_octet_string") || obligation.starts_with("lemma.C07_bits_to_octets") { c07_bits_to_octets(&mut rep); return rep.finish("C07_bits_to_octets"); }
     if obligation.starts_with("C07.named_bits") || obligation.starts_with("C07.lemma.a_listed_name") || obligation.starts_with("C07.lemma.the_empty_list") { c07_named_bits(&mut rep); return rep.finish("C07_named_bits"); }
     if obligation.starts_with("C07.named_lookup") || obligation.starts_with("C07.has_enum_value") || obligation.starts_with("C07.lemma") { c07_lookup(&mut rep); return rep.finish("C07_lookup"); }
     if obligation.starts_with("C07.") { c07_octets_to_bits(&mut rep); return rep.finish("C07_octets_to_bits"); }
@@ -312,6 +313,18 @@ fn gen_enum_members(rep: &mut Rep) {
 fn gen_collections(rep: &mut Rep) {
     use rasn_compiler::verif_hooks::hook_generate_type;
     let nows = |s: &str| s.chars().filter(|c| !c.is_whitespace()).collect::<String>();
+    // format_name_and_common_annotations through generate_null / _boolean / _octet_string / _typealias: `delegate`, then the assignment's own tag
+    for env in [TaggingEnvironment::Automatic, TaggingEnvironment::Implicit, TaggingEnvironment::Explicit] { for kind in 0..4usize {
+        let ty = match kind { 0 => ASN1Type::Null, 1 => ASN1Type::Boolean(Boolean { constraints: vec![] }), 2 => ASN1Type::OctetString(OctetString { constraints: vec![] }),
+            _ => ASN1Type::ElsewhereDeclaredType(DeclarationElsewhere { parent: None, module: None, identifier: "Other".into(), constraints: vec![] }) };
+        for (tc, w) in [(TagClass::Universal, "universal"), (TagClass::Application, "application"), (TagClass::Private, "private"), (TagClass::ContextSpecific, "context")] { for id in [0u64, 31, u64::MAX] { for mode in [TaggingEnvironment::Implicit, TaggingEnvironment::Explicit] {
+            let got = hook_generate_type(env, false, &ty, Some(AsnTag { environment: mode, tag_class: tc, id }));
+            let want = if mode == TaggingEnvironment::Explicit { format!("#[rasn(delegate,tag(explicit({w},{id})))]") } else { format!("#[rasn(delegate,tag({w},{id}))]") };
+            let d = || format!("module_default={env:?} T ::= [{w} {id}] (resolved {mode:?}) {} -> {}", ["NULL", "BOOLEAN", "OCTET STRING", "Other"][kind], match &got { Ok(t) => nows(t), Err(e) => format!("ERR {e}") });
+            rep.check("C03.common_annotations.delegate_then_the_tag_of_this_assignment_then_the_identifier_when_mangled", matches!(&got, Ok(t) if nows(t).contains(&want)), d);
+            rep.check("C03.common_annotations.name_is_the_title_cased_type_name", matches!(&got, Ok(t) if nows(t).contains("pubstructT")), d);
+        } } }
+    } }
     for env in [TaggingEnvironment::Automatic, TaggingEnvironment::Implicit, TaggingEnvironment::Explicit] { for is_set in [false, true] { for elem in 0..3usize {
         let element = match elem { 0 => ASN1Type::Boolean(Boolean { constraints: vec![] }), 1 => ASN1Type::ElsewhereDeclaredType(DeclarationElsewhere { parent: None, module: None, identifier: "Other".into(), constraints: vec![] }),
             _ => ASN1Type::SetOf(SequenceOrSetOf { constraints: vec![], element_tag: None, element_type: Box::new(ASN1Type::Boolean(Boolean { constraints: vec![] })), is_recursive: false }) };
@@ -717,6 +730,23 @@ fn c07_octets_to_bits(rep: &mut Rep) {
         rep.check("C07.octet_string_to_bit_string.every_octet_expanded_in_order", got == want(bytes), desc);
         rep.check("C07.octet_string_to_bit_string.eight_bits_per_octet_any_length", got.len() == 8 * bytes.len(), desc);
         rep.check("C07.is_bit_set.appends_the_comparison_bits_in_order", got == want(bytes), desc);
+    }
+}
+
+fn c07_bits_to_octets(rep: &mut Rep) {
+    // every bit string of length 0..=10, and seeded random ones of length up to 64
+    let mut cases: Vec<Vec<bool>> = vec![];
+    for len in 0..=10usize { for v in 0..(1u32 << len) { cases.push((0..len).map(|k| v >> k & 1 == 1).collect()); } }
+    let mut r = Lcg(7);
+    for _ in 0..3000 { let len = r.next(65); cases.push((0..len).map(|_| r.next(2) == 1).collect()); }
+    for bits in &cases {
+        let got = rasn_compiler::verif_hooks::hook_bit_string_to_octet_string(bits);
+        let d = || format!("bits={} -> {got:02X?}", bits.iter().map(|b| if *b { '1' } else { '0' }).collect::<String>());
+        if bits.len() % 8 != 0 { rep.check("C07.bit_string_to_octet_string.a_length_that_is_no_multiple_of_8_is_rejected", got.is_none(), d); continue; }
+        rep.check("C07.bit_string_to_octet_string.one_octet_per_eight_bits_any_length", matches!(&got, Some(o) if o.len() == bits.len() / 8), d);
+        let want: Vec<u8> = bits.chunks(8).map(|g| g.iter().enumerate().map(|(k, b)| if *b { 1u8 << (7 - k) } else { 0 }).sum()).collect();
+        rep.check("C07.bit_string_to_octet_string.every_octet_is_the_msb_first_value_of_its_group", got.as_ref() == Some(&want), d);
+        rep.check("C07.bit_string_to_octet_string.octets_so_far_are_the_values_of_their_groups", got.as_ref() == Some(&want), d);
     }
 }
 
